@@ -24,7 +24,7 @@ EXPLANATION = (
 )
 ASSUMPTIONS = ["CPython ast parses /repo's source as the interpreter would",
                "getattr/__getattr__ forwarding in FlippedSignature/FlippedInterface is opaque; only explicit methods are checked"]
-MIN_INSTANCES = {"R-14a": 10, "R-14b": 6, "R-14c": 6, "R-14d": 5}
+MIN_INSTANCES = {"R-14e": 2, "R-14a": 10, "R-14b": 6, "R-14c": 6, "R-14d": 5}
 
 
 def r14a(model, ctx):
@@ -299,4 +299,35 @@ def r14d(model, ctx):
               "Member must evaluate its initial value as a constant of its shape", f"{W}:{fm.lineno}")
 
 
-RULES = [("R-14a", r14a), ("R-14b", r14b), ("R-14c", r14c), ("R-14d", r14d)]
+def r14e(model, ctx):
+    """initial values of ports: the declared value is kept as the evaluated constant (not wrapped to the port width, which
+    would drop the sign of negative initial values), and compliance compares a signal's init with that constant's value for
+    equality, over all bits"""
+    R = "R-14e"
+    fi = model.func(f"{W}::Member.__init__")
+    stores = [st for st in ast.walk(fi) if isinstance(st, ast.Assign) and unparse(st.targets[0]) == "self._init_as_const"]
+    need(len(stores) >= 2, "Member.__init__: the stores of _init_as_const were not found")
+    vals = sorted(unparse(st.value) for st in stores)
+    ok = set(vals) <= {"Const.cast(init or 0)", "Const.cast(Const(self._init, self._description))", "None"} and \
+        "Const.cast(init or 0)" in vals and "Const.cast(Const(self._init, self._description))" in vals
+    ctx.check(ok, R, "Member.__init__:_init_as_const", "Const.cast(init or 0) for plain shapes, Const(init, shape) for shape-castables",
+              f"Member must keep the declared initial value as its evaluated constant (Const.cast(init or 0) / Const.cast(Const(init, "
+              f"shape))); found {vals}: wrapping it to the port width makes a signed port with a negative init non-compliant with "
+              f"the interface its own signature creates", f"{W}:{fi.lineno}")
+    fc = model.func(f"{W}::Signature.is_compliant")
+    fv = model.func_view(f"{W}::Signature.is_compliant", depth=0)
+    tests = [n.test for n in ast.walk(fv) if isinstance(n, (ast.If, ast.IfExp)) and "_init_as_const" in unparse(n.test)
+             and ".init" in unparse(n.test)]
+    need(len(tests) == 1, "Signature.is_compliant: the comparison of a signal's init with the declared initial value was not found")
+    t = tests[0]
+    masked = any(isinstance(n, ast.BinOp) and isinstance(n.op, (ast.BitAnd, ast.BitXor, ast.Mod)) for n in ast.walk(t))
+    plain = isinstance(t, ast.Compare) and len(t.ops) == 1 and isinstance(t.ops[0], (ast.NotEq, ast.Eq)) and \
+        {unparse(t.left), unparse(t.comparators[0])} == {"attr_value_cast.init", "member._init_as_const.value"}
+    need(plain or masked, f"Signature.is_compliant: unrecognised comparison of initial values `{unparse(t)}`")
+    ok = plain
+    ctx.check(ok and not masked, R, "Signature.is_compliant:init", "signal.init compared with the declared constant's value, all bits",
+              "is_compliant must compare the signal's init with member._init_as_const.value for (in)equality without masking: a mask "
+              "taken from the literal's natural width accepts signals whose init differs in higher bits", f"{W}:{fc.lineno}")
+
+
+RULES = [("R-14e", r14e), ("R-14a", r14a), ("R-14b", r14b), ("R-14c", r14c), ("R-14d", r14d)]
